@@ -355,12 +355,21 @@ def c02_billing(stream, res, impl):
             cfg = _kv(op)
         if t[1] == "dump":
             d = _dump(out)
-            if d is not None and prev is not None and len(between) == 1 and between[0][0].split()[1] == "update" \
-                    and between[0][1].startswith("ok ") and cfg.get("nobalance") == "0":
-                o = between[0][0]
+            # the keep-alive may be preceded by harness-injected node records (`setnode`): they only move LastSeen
+            inj = {}
+            for bo, _ in between[:-1]:
+                bt = bo.split()
+                if len(bt) > 4 and bt[1] == "setnode" and bt[3].startswith("t:"):
+                    inj[bt[2]] = {"lastSeen": int(bt[3][2:]), "isHost": bt[4] == "1"}
+                else:
+                    inj = None
+                    break
+            if d is not None and prev is not None and between and inj is not None and between[-1][0].split()[1] == "update" \
+                    and between[-1][1].startswith("ok ") and cfg.get("nobalance") == "0":
+                o = between[-1][0]
                 who = o.split()[2]
                 kv = _kv(o)
-                nb0, nb1 = prev["nodes"].get(who), d["nodes"].get(who)
+                nb0, nb1 = inj.get(who) or prev["nodes"].get(who), d["nodes"].get(who)
                 try:
                     price, interval = int(cfg["price"]), int(cfg["interval"])
                 except (KeyError, ValueError):
